@@ -349,3 +349,111 @@ pub fn build_hammer(seed: u64, threads: usize, reads_per_thread: usize) -> Scena
         expected,
     }
 }
+
+/// An in-place edit made by the owner of the arena between two read phases.
+#[derive(Clone, Debug)]
+pub enum Edit {
+    /// a new parentless node linked after `0` (extends / splits a top-level chain)
+    NewAfter(NodeId, String),
+    NewBefore(NodeId, String),
+    AppendValue(NodeId, String),
+    Remove(NodeId),
+    MoveAfter(NodeId, NodeId),
+}
+
+pub fn apply_edit(a: &mut Arena<String>, e: &Edit) {
+    match e {
+        Edit::NewAfter(x, v) => {
+            let n = a.new_node(v.clone());
+            x.insert_after(n, a);
+        }
+        Edit::NewBefore(x, v) => {
+            let n = a.new_node(v.clone());
+            x.insert_before(n, a);
+        }
+        Edit::AppendValue(p, v) => {
+            p.append_value(v.clone(), a);
+        }
+        Edit::Remove(x) => x.remove(a),
+        Edit::MoveAfter(x, y) => {
+            let _ = x.checked_insert_after(*y, a);
+        }
+    }
+}
+
+/// "Phased" scenario: persistent reader threads read, the owner edits the arena *in place*
+/// (exclusive access through a lock, same address), the same threads read again. Any state a
+/// reader keeps outside the arena (a thread-local or process-wide memo keyed by address or id)
+/// is stale in the second phase.
+pub struct Phased {
+    pub arena: Arena<String>,
+    pub edits: Vec<Edit>,
+    pub reads1: Vec<Vec<Read>>,
+    pub reads2: Vec<Vec<Read>>,
+    pub exp1: Vec<Vec<u64>>,
+    pub exp2: Vec<Vec<u64>>,
+}
+
+pub fn build_phased(seed: u64, threads: usize, reads_per_thread: usize) -> Phased {
+    let base = build_hammer(seed, threads, reads_per_thread);
+    let mut rng = Rng::new(seed ^ 0x706861736564);
+    let arena = base.arena;
+    let mut after = arena.clone();
+    let mut edits = Vec::new();
+    let n_edits = 2 + rng.usize_below(3);
+    for i in 0..n_edits {
+        let live = live_ids(&after);
+        let tops: Vec<NodeId> = live.iter().copied().filter(|x| after[*x].parent().is_none()).collect();
+        let e = match rng.below(6) {
+            0 | 1 => {
+                // extend a chain at its end: the last member of the chain of a random top node
+                let mut last = *rng.pick(&tops);
+                while let Some(nx) = after[last].next_sibling() {
+                    last = nx;
+                }
+                Edit::NewAfter(last, format!("e{}", i))
+            }
+            2 => {
+                let mut first = *rng.pick(&tops);
+                while let Some(pv) = after[first].previous_sibling() {
+                    first = pv;
+                }
+                Edit::NewBefore(first, format!("e{}", i))
+            }
+            3 => Edit::AppendValue(*rng.pick(&live), format!("e{}", i)),
+            4 => {
+                // remove a leaf that is not a chain head
+                let leaves: Vec<NodeId> = live.iter().copied().filter(|x| after[*x].first_child().is_none() && after[*x].parent().is_some()).collect();
+                if leaves.is_empty() {
+                    Edit::AppendValue(*rng.pick(&live), format!("e{}", i))
+                } else {
+                    Edit::Remove(*rng.pick(&leaves))
+                }
+            }
+            _ => Edit::MoveAfter(*rng.pick(&tops), *rng.pick(&tops)),
+        };
+        apply_edit(&mut after, &e);
+        edits.push(e);
+    }
+    // second-phase reads: same kinds, nodes that are live after the edits
+    let live2 = live_ids(&after);
+    let tops2: Vec<NodeId> = live2.iter().copied().filter(|x| after[*x].parent().is_none()).collect();
+    let mut reads2 = Vec::new();
+    for t in 0..threads {
+        let mut v = Vec::new();
+        for (i, r) in base.reads[t].iter().enumerate() {
+            let node = if live2.contains(&r.node) && i % 3 != 2 { r.node } else { *rng.pick(&tops2) };
+            v.push(Read { kind: r.kind, node });
+        }
+        reads2.push(v);
+    }
+    let exp2 = reads2.iter().map(|v| v.iter().map(|r| eval(&after, *r, &|| {})).collect()).collect();
+    Phased {
+        arena,
+        edits,
+        reads1: base.reads,
+        reads2,
+        exp1: base.expected,
+        exp2,
+    }
+}
